@@ -12,7 +12,7 @@ META = {
              'the generator (a refused edit is caught by the consumer and recorded); every yielded node is alive, belongs to the root and is reachable from root.a; no node is '
              'entered twice (strong references kept); after replacing the current node (single element) its new children come next unless send(False); after removing it the '
              'walk continues with the node that followed; send(False)/send(True) honoured; termination within 4*(nodes+inserted)+16 yields; final tree satisfies the C01 oracle. '
-             'A cell is (action, relative position, on, back, all).'),
+             'A cell is (action, relative position, on, back, all). Additional action replace+send(True) on the current node: after an undisturbed re-walk every new descendant must have been yielded before the node comes back (on=\'leave\'/\'both\'), or next (on=\'enter\'). Programs include list fields that start with None (Dict with leading **, kw_defaults).'),
     'budget': {'quick': 45, 'thorough': 900},
     'floors': {'quick': {'schedules_executed': 15000, 'mutating_actions_applied': 8000, '#cells': 150}, 'thorough': {'schedules_executed': 400000, 'mutating_actions_applied': 200000, '#cells': 200}},
     'shares_c01_oracle': True,
